@@ -194,6 +194,20 @@ def real_smiles(s, want_obj=False):
     return (out, obj) if want_obj else out
 
 
+def real_built(s, **opts):
+    """the built part only (atoms with hydrogens / radical flag, adjacency), for smiles(s, **opts)"""
+    _, S, _ = _mods()
+    try:
+        obj = S.smiles(s, **opts)
+    except Exception as e:
+        return err_class(e)
+    from chython import ReactionContainer
+    if isinstance(obj, ReactionContainer):
+        return ('ok R R[' + ' | '.join(mol_str(m) for m in obj.reactants) + '] G[' + ' | '.join(mol_str(m) for m in obj.reagents) +
+                '] P[' + ' | '.join(mol_str(m) for m in obj.products) + ']')
+    return 'ok M ' + mol_str(obj)
+
+
 def norm_model(line):
     """model line -> (comparable line, message)"""
     if line.startswith('lib:') or line.startswith('crash:'):
@@ -699,7 +713,7 @@ def correspond(ctx):
             ctx.fail(r[0], r[1], {'smiles': s})
     # the reader agrees with itself for every forwarded keyword argument: a molecule text in any role of a reaction is built as
     # the same text read alone (hydrogens, radicals, isotopes, charges, stereo, canonical string)
-    mols = OPTION_MOLS + (hydrogen_centres() if not ctx.quick else ctx.rng.sample(hydrogen_centres(), 60))
+    mols = OPTION_MOLS + (hydrogen_centres() if not ctx.quick else ctx.rng.sample(hydrogen_centres(), 15))
     for opts in OPTION_GRID:
         for m in mols:
             for t in ROLE_TEMPLATES:
@@ -711,6 +725,28 @@ def correspond(ctx):
                 if r is not None:
                     ctx.dist('oracle:' + r[0])
                     ctx.fail(r[0], r[1], {'smiles': t, 'molecule': m, 'options': opts})
+    # model vs code for the three keywords that act inside the hydrogen loop of create_molecule (all 8 combinations):
+    # driver op `H k a c s` against smiles(s, keep_implicit=k, ignore_aromatic_radicals=a, ignore_carbon_radicals=c)
+    if ctx.build_ok:
+        grid = list(hydrogen_grid())
+        if ctx.quick:
+            grid = ctx.rng.sample(grid, 350) + [x for x in grid if '[CH3]' in x or '[c]' in x or '[n]' in x][:90]
+        combos = [(k, a, c) for k in (0, 1) for a in (0, 1) for c in (0, 1)]
+        reqs = [f'H {k} {a} {c} ' + enc(x) for (k, a, c) in combos for x in grid]
+        resp = core.run_driver('C03', reqs)
+        if len(resp) != len(reqs):
+            ctx.broke('correspondence', 'driver-protocol', f'{len(reqs)} requests, {len(resp)} responses (H)')
+        else:
+            i = 0
+            for (k, a, c) in combos:
+                for x in grid:
+                    ms, _ = norm_model(resp[i])
+                    i += 1
+                    rs = real_built(x, keep_implicit=bool(k), ignore_aromatic_radicals=bool(a), ignore_carbon_radicals=bool(c))
+                    ctx.dist('stream:option-hydrogen-grid')
+                    ctx.count(('H', k, a, c, x), True)
+                    if ms != rs:
+                        state['bad'].setdefault('smiles(options)', []).append((f'{x}  [keep_implicit={k} ignore_aromatic_radicals={a} ignore_carbon_radicals={c}]', ms, rs))
     for tag, s in streams(ctx):
         if not s or any(ord(c) > 126 for c in s):
             continue
